@@ -105,16 +105,19 @@ def splitLastDollar (line : Str) : Option (Str × Str) :=
   | some (revAfter, revBefore) => some (revBefore.reverse, revAfter.reverse)
   | none => none
 
-/-- `AbstractNetworkFilter::parse` -/
-def parseAbstract (line : Str) : PResult Abstract := do
+/-- everything before the last `$` is the pattern side; the rest is the option list -/
+def splitOptions (line : Str) : PResult (Str × Option (List NOpt)) :=
+  match splitLastDollar line with
+  | some (before, after) =>
+    match parseOptions after with
+    | .ok o => .ok (before, some o)
+    | .error e => .error e
+  | none => .ok (line, none)
+
+/-- anchors and the pattern text, once the options are split off -/
+def abstractOf (line patSide : Str) (options : Option (List NOpt)) : Abstract :=
   let exception := startsWith "@@" line
   let start0 := if exception then 2 else 0
-  -- everything before the last `$` is the pattern side
-  let (patSide, options) ← match splitLastDollar line with
-    | some (before, after) => do
-        let o ← parseOptions after
-        pure (before, some o)
-    | none => pure (line, none)
   let filterEnd0 := patSide.length
   let rest := line.drop start0
   let (la, start1) :=
@@ -123,7 +126,13 @@ def parseAbstract (line : Str) : PResult Abstract := do
     else (none, start0)
   let ra := filterEnd0 > 0 && filterEnd0 > start1 && patSide.getLast? == some '|'
   let filterEnd := if ra then filterEnd0 - 1 else filterEnd0
-  pure { exception, la, pattern := (line.take filterEnd).drop start1, ra, options }
+  { exception, la, pattern := (line.take filterEnd).drop start1, ra, options }
+
+/-- `AbstractNetworkFilter::parse` -/
+def parseAbstract (line : Str) : PResult Abstract :=
+  match splitOptions line with
+  | .error e => .error e
+  | .ok (patSide, options) => .ok (abstractOf line patSide options)
 
 /-- `validate_options` -/
 def validateOptions (opts : List NOpt) : PResult Unit :=
@@ -248,26 +257,33 @@ def splitHostPart (la : Option LAnchor) (mask : Mask) (pattern : Str) : Mask × 
       | none => (mask, some pattern, plen)
   | _ => (mask, none, 0)
 
+/-- a trailing `*` and a leading `*` are dropped: (mask, start, end) of what is left -/
+def trimStars (mask : Mask) (pattern : Str) (fStart : Nat) : Mask × Nat × Nat :=
+  let fEnd := pattern.length
+  let fEnd := if fEnd > fStart && pattern.getLast? == some '*' then fEnd - 1 else fEnd
+  if fEnd > fStart && (pattern.drop fStart).head? == some '*'
+    then (setBit mask IS_LEFT_ANCHOR false, fStart + 1, fEnd) else (mask, fStart, fEnd)
+
+/-- a left-anchored pattern that is only a scheme becomes a scheme restriction: (mask, start) -/
+def schemeOnly (mask : Mask) (tail : Str) (fStart fEnd : Nat) : Mask × Nat :=
+  if has mask IS_LEFT_ANCHOR then
+    if fEnd == fStart + 5 && startsWith "ws://" tail then
+      (clearBits (setBit mask FROM_WEBSOCKET true) [FROM_HTTP, FROM_HTTPS, IS_LEFT_ANCHOR], fEnd)
+    else if fEnd == fStart + 7 && startsWith "http://" tail then
+      (clearBits (setBit mask FROM_HTTP true) [FROM_HTTPS, IS_LEFT_ANCHOR], fEnd)
+    else if fEnd == fStart + 8 && startsWith "https://" tail then
+      (clearBits (setBit mask FROM_HTTPS true) [FROM_HTTP, IS_LEFT_ANCHOR], fEnd)
+    else if fEnd == fStart + 8 && startsWith "http*://" tail then
+      (clearBits (setBit (setBit mask FROM_HTTPS true) FROM_HTTP true) [IS_LEFT_ANCHOR], fEnd)
+    else (mask, fStart)
+  else (mask, fStart)
+
 /-- trailing / leading `*`, scheme-only patterns, and the filter text that is left -/
 def filterSurgery (mask : Mask) (pattern : Str) (fStart : Nat) : Mask × Option Str :=
-  let plen := pattern.length
-  let fEnd := plen
-  let fEnd := if fEnd > fStart && pattern.getLast? == some '*' then fEnd - 1 else fEnd
-  let (mask, fStart) := if fEnd > fStart && (pattern.drop fStart).head? == some '*'
-    then (setBit mask IS_LEFT_ANCHOR false, fStart + 1) else (mask, fStart)
-  let tail := pattern.drop fStart
-  let (mask, fStart) :=
-    if has mask IS_LEFT_ANCHOR then
-      if fEnd == fStart + 5 && startsWith "ws://" tail then
-        (clearBits (setBit mask FROM_WEBSOCKET true) [FROM_HTTP, FROM_HTTPS, IS_LEFT_ANCHOR], fEnd)
-      else if fEnd == fStart + 7 && startsWith "http://" tail then
-        (clearBits (setBit mask FROM_HTTP true) [FROM_HTTPS, IS_LEFT_ANCHOR], fEnd)
-      else if fEnd == fStart + 8 && startsWith "https://" tail then
-        (clearBits (setBit mask FROM_HTTPS true) [FROM_HTTP, IS_LEFT_ANCHOR], fEnd)
-      else if fEnd == fStart + 8 && startsWith "http*://" tail then
-        (clearBits (setBit (setBit mask FROM_HTTPS true) FROM_HTTP true) [IS_LEFT_ANCHOR], fEnd)
-      else (mask, fStart)
-    else (mask, fStart)
+  match trimStars mask pattern fStart with
+  | (mask, fStart, fEnd) =>
+  match schemeOnly mask (pattern.drop fStart) fStart fEnd with
+  | (mask, fStart) =>
   if fEnd > fStart then
     let fs := (pattern.take fEnd).drop fStart
     let mask := setBit mask IS_REGEX (checkIsRegex fs)
